@@ -381,6 +381,8 @@ typedef struct {
 	int seeder_mode;          /* 1 fixed (default), 2 fail, 3 none, 0 untouched */
 	int inject_entropy;       /* call br_ssl_engine_inject_entropy(seed) before reset */
 	int reuse_ctx;            /* do not re-initialise the context (resumption on same client) */
+	int impl_set;             /* 0 library defaults (AES-NI, pclmul, SSE2 here); 1 the small constant-time set an ESP8266 gets (aes_ct, des_ct, ghash_ctmul32, chacha20_ct,
+	                             poly1305_ctmul32, EC all_m15, RSA/ECDSA i15); 2 table-based / 32-bit set (aes_big, des_tab, ghash_ctmul, poly1305_ctmul, EC all_m31, i31); 3 64-bit set (aes_ct64, ghash_ctmul64, poly1305_ctmulq) */
 	int ta_plain_names;       /* server, client_auth: br_ssl_server_set_trust_anchor_names instead of _alt */
 	const unsigned char *inject_bytes;   /* with inject_entropy: 32 bytes to inject instead of seed[] */
 	int mismatch_key;         /* server: private key that does not match the chain; client: same for the client certificate */
@@ -556,6 +558,47 @@ tp_ep_start(tp_ep *ep, const tp_cfg *cfg)
 			ep->buf = malloc(ep->buf_len ? ep->buf_len : 1);
 			br_ssl_engine_set_buffer(ep->eng, ep->buf, ep->buf_len,
 				cfg->layout == TP_LAYOUT_SPLIT1);
+		}
+	}
+	if (!reuse && cfg->impl_set) {
+		br_ssl_engine_context *e = ep->eng;
+		switch (cfg->impl_set) {
+		case 1:
+			br_ssl_engine_set_aes_cbc(e, &br_aes_ct_cbcenc_vtable, &br_aes_ct_cbcdec_vtable);
+			br_ssl_engine_set_aes_ctr(e, &br_aes_ct_ctr_vtable);
+			br_ssl_engine_set_aes_ctrcbc(e, &br_aes_ct_ctrcbc_vtable);
+			br_ssl_engine_set_des_cbc(e, &br_des_ct_cbcenc_vtable, &br_des_ct_cbcdec_vtable);
+			br_ssl_engine_set_ghash(e, &br_ghash_ctmul32);
+			br_ssl_engine_set_chacha20(e, &br_chacha20_ct_run);
+			br_ssl_engine_set_poly1305(e, &br_poly1305_ctmul32_run);
+			br_ssl_engine_set_ec(e, &br_ec_all_m15);
+			br_ssl_engine_set_rsavrfy(e, &br_rsa_i15_pkcs1_vrfy);
+			br_ssl_engine_set_ecdsa(e, &br_ecdsa_i15_vrfy_asn1);
+			if (cfg->role == 0) br_ssl_client_set_rsapub(ep->cc, &br_rsa_i15_public);
+			break;
+		case 2:
+			br_ssl_engine_set_aes_cbc(e, &br_aes_big_cbcenc_vtable, &br_aes_big_cbcdec_vtable);
+			br_ssl_engine_set_aes_ctr(e, &br_aes_big_ctr_vtable);
+			br_ssl_engine_set_aes_ctrcbc(e, &br_aes_big_ctrcbc_vtable);
+			br_ssl_engine_set_des_cbc(e, &br_des_tab_cbcenc_vtable, &br_des_tab_cbcdec_vtable);
+			br_ssl_engine_set_ghash(e, &br_ghash_ctmul);
+			br_ssl_engine_set_chacha20(e, &br_chacha20_ct_run);
+			br_ssl_engine_set_poly1305(e, &br_poly1305_ctmul_run);
+			br_ssl_engine_set_ec(e, &br_ec_all_m31);
+			br_ssl_engine_set_rsavrfy(e, &br_rsa_i31_pkcs1_vrfy);
+			br_ssl_engine_set_ecdsa(e, &br_ecdsa_i31_vrfy_asn1);
+			if (cfg->role == 0) br_ssl_client_set_rsapub(ep->cc, &br_rsa_i31_public);
+			break;
+		default:
+			br_ssl_engine_set_aes_cbc(e, &br_aes_ct64_cbcenc_vtable, &br_aes_ct64_cbcdec_vtable);
+			br_ssl_engine_set_aes_ctr(e, &br_aes_ct64_ctr_vtable);
+			br_ssl_engine_set_aes_ctrcbc(e, &br_aes_ct64_ctrcbc_vtable);
+			br_ssl_engine_set_ghash(e, &br_ghash_ctmul64);
+			br_ssl_engine_set_poly1305(e, &br_poly1305_i15_run);
+			if (br_poly1305_ctmulq_get() != 0) br_ssl_engine_set_poly1305(e, br_poly1305_ctmulq_get());
+			br_ssl_engine_set_ec(e, &br_ec_prime_i31);
+			if (cfg->role == 0) br_ssl_client_set_rsapub(ep->cc, &br_rsa_i32_public);
+			break;
 		}
 	}
 	if (cfg->vmin != 0) {
